@@ -308,6 +308,7 @@ func runC18(c *core.Ctx) core.Meta {
 	checkUploadAfterDistribute(c)
 	checkFieldStoredFresh(c, "R18.17", "the staging bytes of a device-to-host copy belong to its command (MemCopyD2HCommand.RawData is allocated by the call that stores it): the per-GPU read-backs of a distributed buffer are in flight together, and with shared staging every GPU's share is decoded from the bytes of whichever answered last", 1, driverPkg, "MemCopyD2HCommand.RawData")
 	checkSharedCompletionDecodes(c, "R18.18")
+	checkPointerAdvancedInBytes(c)
 	return core.Meta{Level: "other",
 		Explanation: "RDMA clauses of C18 decided on SSA of amd/timing/rdma: SEND-DISCIPLINE on all handlers incl. the control port, FIELDS of cloned requests/responses by provenance, the frozen 4-row wiring table (output port ↔ input port ↔ transaction table ↔ address mapper) checked on each Send's provenance, reply matching on forwarded IDs, drain acknowledgement guarded by both tables empty and by isDraining, pause gate on requests from inside.",
 		NotDecided:  "equality of final data across GPU counts and buffer distributions (value level); work-group distribution arithmetic of the driver; address-mapper contents",
